@@ -43,6 +43,7 @@ fn case_src(p: &Prog, idx: usize) -> CaseSrc {
         idx,
         code: render::case_fn(p, idx),
         table: format!("        Case {{ idx: {}, desc: \"{}\", f: {} }},\n", idx, render::escape_str(&p.to_json().to_string()), f),
+        ref_from: None,
     }
 }
 
@@ -55,48 +56,18 @@ fn main_text(cs: &[&CaseSrc]) -> String {
     s
 }
 
-pub struct BatchResult {
-    pub reports: Vec<Value>,
-    pub compile_fail: BTreeMap<usize, Vec<String>>,
-    pub infra: Vec<String>,
-}
+pub use crate::batch::BatchResult;
 
 /// Builds and runs `progs` (idx = position) as one generated crate.
 pub fn build_and_run(pkg: &str, progs: &[Prog], mode: &str, budget: usize, seed: u64, features: &[&str], timeout_s: u64, extra_env: &[(String, String)], nbins: usize) -> BatchResult {
     let cases: Vec<CaseSrc> = progs.iter().enumerate().map(|(i, p)| case_src(p, i)).collect();
-    let mut skip: BTreeSet<usize> = BTreeSet::new();
-    let mut compile_fail: BTreeMap<usize, Vec<String>> = BTreeMap::new();
-    let mut infra = Vec::new();
-    for _round in 0..4 {
-        let spec = BatchSpec { pkg, header: render::file_header(), cases: &cases, main: &main_text, nbins, jvrt_features: features, extra_deps: "", skip: &skip };
-        let b = batch::write_batch(&spec);
-        let bo = b.build();
-        if !bo.failed_cases.is_empty() {
-            for (k, v) in bo.failed_cases {
-                skip.insert(k);
-                compile_fail.insert(k, v);
-            }
-            if skip.len() >= cases.len() {
-                break;
-            }
-            continue; // rebuild without the failing cases so the search continues
-        }
-        if !bo.ok {
-            infra.push(format!("build failed without attributable case: {}", bo.other_errors.join(" | ").chars().take(2000).collect::<String>()));
-            return BatchResult { reports: vec![], compile_fail, infra };
-        }
-        let mut env = vec![
-            ("JV_MODE".to_string(), mode.to_string()),
-            ("JV_SEED".to_string(), seed.to_string()),
-            ("JV_BUDGET".to_string(), budget.to_string()),
-        ];
-        env.extend(extra_env.iter().cloned());
-        let (reports, inf) = b.run(&env, timeout_s);
-        infra.extend(inf);
-        let _ = std::fs::remove_dir_all(&b.dir);
-        return BatchResult { reports, compile_fail, infra };
-    }
-    BatchResult { reports: vec![], compile_fail, infra }
+    let mut env = vec![
+        ("JV_MODE".to_string(), mode.to_string()),
+        ("JV_SEED".to_string(), seed.to_string()),
+        ("JV_BUDGET".to_string(), budget.to_string()),
+    ];
+    env.extend(extra_env.iter().cloned());
+    batch::build_and_run_src(pkg, render::file_header(), &cases, &main_text, &env, features, "", timeout_s, nbins)
 }
 
 // ------------------------------------------------------------------ shrinking
